@@ -55,15 +55,141 @@ def eval_rules(rules, x, name_to_col):
     return rules[1]
 
 
+def call_print(model, arg):
+    """(exception or None, what reached stdout) of print_kauri_tree(model, arg)"""
+    from gemclus.tree import print_kauri_tree
+    buf, exc = io.StringIO(), None
+    try:
+        with contextlib.redirect_stdout(buf):
+            print_kauri_tree(model, arg)
+    except Exception as e:
+        exc = e
+    return exc, buf.getvalue()
+
+
+def name_variants(rs, used, d):
+    """`feature_names` arguments for a tree that uses the features `used` (d columns): (kind, argument, ndim, entries).
+    `ndim` and `entries` (each as an f-string formats it) are what the generator BUILT, not what numpy says of the result:
+    they are the input of the Lean model `printKauriTree` (Model/KauriNames.lean)."""
+    mx = max(used) if used else -1
+    out = [("None", None, None, [])]
+
+    def wrap(kind, names):
+        if kind == "list":
+            return list(names)
+        if kind == "tuple":
+            return tuple(names)
+        if kind == "ndarray-object":
+            a = np.empty(len(names), dtype=object)
+            a[:] = names
+            return a
+        return np.array(names, dtype=str) if len(names) else np.empty(0, dtype=str)      # numpy string array
+    kinds = ["list", "tuple", "ndarray-object", "ndarray-str"]
+    # one-dimensional arguments of every length around the largest used index: max(used)+0 is the longest list that
+    # must be rejected, max(used)+1 the shortest that must be accepted
+    for L in sorted({0, 1, mx - 1, mx, mx + 1, mx + 2, d, d + 2} - {-1, -2}):
+        ks = kinds if L in (mx, mx + 1) else [kinds[int(rs.randint(4))]]
+        for kind in ks:
+            names = [f"n{j}" for j in range(L)]
+            out.append((f"{kind}[{L}]", wrap(kind, names), 1, names))
+    for L in sorted({mx, mx + 1, d} - {-1}):
+        # entries that are not str (ints, floats), entries colliding with the printed syntax, empty / repeated entries
+        out.append((f"list-of-int[{L}]", [10 + j for j in range(L)], 1, [str(10 + j) for j in range(L)]))
+        out.append((f"ndarray-int[{L}]", np.arange(L) * 3, 1, [str(3 * j) for j in range(L)]))
+        pool = ["age<=30", "x <= y", "a > b", "|=w", "Node 1", " Cluster: 0", "", "é ü", "X[:, 9]", "| | ", "<=", "a\tb"]
+        adv = [pool[i % len(pool)] + ("" if i < len(pool) else str(i)) for i in rs.permutation(max(L, len(pool)))[:L]]
+        out.append((f"adversarial[{L}]", adv, 1, adv))
+        out.append((f"repeated[{L}]", ["same"] * L, 1, ["same"] * L))
+        out.append((f"newline[{L}]", tuple(f"l{j}\nm" for j in range(L)), 1, [f"l{j}\nm" for j in range(L)]))
+    # arguments that are not one-dimensional (long enough in every direction: only the shape is wrong)
+    L = max(mx + 2, 2)
+    names = [f"n{j}" for j in range(L)]
+    ent = lambda a: [f"{x}" for x in a]
+    out.append(("str", "abcdefgh"[:L].ljust(L, "z"), 0, []))
+    out.append(("0-d ndarray", np.array("n0"), 0, []))
+    out.append(("number", 7, 0, []))
+    out.append(("dict", {j: names[j] for j in range(L)}, 0, []))
+    out.append(("set", set(names), 0, []))
+    a = np.array([names]); out.append((f"ndarray(1,{L})", a, 2, ent(a)))
+    a = np.array(names).reshape(L, 1); out.append((f"ndarray({L},1)", a, 2, ent(a)))
+    a = [[n, n + "'"] for n in names]; out.append((f"nested lists {L}x2", a, 2, ent(a)))
+    a = np.array(names * 2, dtype=object).reshape(L, 2, 1); out.append((f"ndarray({L},2,1)", a, 3, ent(a)))
+    out.append(("ndarray(0,3)", np.empty((0, 3)), 2, []))
+    out.append(("[[]]", [[]], 2, ["[]"]))
+    return out
+
+
+def hx(s):
+    return "x" + s.encode("utf-8").hex()
+
+
+def judge_names(ctx, model, kind, arg, ndim, names, used, Q, pq, inp, how):
+    """oracle verdict on one (tree, feature_names) pair, from what the real function did (independent of the Lean model)"""
+    exc, text = call_print(model, arg)
+    desc = {**inp, "names_kind": kind, "names": repr(arg)}
+    mx = max(used) if used else -1
+    if ndim is None:
+        pass                                            # feature_names=None: judged by the main block
+    elif ndim != 1:
+        # not judged as accept/reject; an exception half-way through the text, or one that is not a rejection, is a crash
+        if exc is not None and (text or not isinstance(exc, (ValueError, TypeError))):
+            ctx.violation(f"feature_names of kind {kind} (ndim {ndim}): {type(exc).__name__}: {exc} "
+                          f"{'after part of the tree was printed' if text else 'instead of a rejection (ValueError/TypeError)'}",
+                          "print", {**desc, "printed": text}, key="print:names-crash", how=how)
+    elif len(names) <= mx:
+        if exc is None:
+            ctx.violation(f"{len(names)} feature names ({kind}) accepted although the tree uses feature {mx}", "print", desc,
+                          key="print:too-few-accepted", how=how)
+        elif not isinstance(exc, (ValueError, TypeError)):
+            ctx.violation(f"{len(names)} feature names ({kind}) for a tree that uses feature {mx}: {type(exc).__name__}: {exc} "
+                          f"instead of a rejection (ValueError/TypeError before printing)", "print", {**desc, "printed": text},
+                          key="print:too-few-crash", how=how)
+        elif text:
+            ctx.violation(f"{len(names)} feature names ({kind}) rejected only after part of the tree was printed", "print",
+                          {**desc, "printed": text}, key="print:too-few-late", how=how)
+        else:
+            ctx.count("pairs:too-few-rejected")
+    else:
+        if exc is not None:
+            ctx.violation(f"{len(names)} names ({kind}) cover every used feature (largest index {mx}) but print_kauri_tree raised "
+                          f"{type(exc).__name__}: {exc}", "print", {**desc, "printed": text}, key="print:just-enough-rejected", how=how)
+        elif not any("\n" in n for n in names):
+            try:
+                rules = parse_rules(text, names)
+            except (AssertionError, IndexError, ValueError) as e:
+                ctx.violation(f"printed text ({kind}) is not a nested rule set: {e}", "print", {**desc, "printed": text},
+                              key="print:unparsable", how=how)
+                rules = None
+            if rules is not None and len(set(names[f] for f in used)) == len(used):
+                # labels of the used features are pairwise distinct: the text alone fixes the columns
+                col = {names[f]: f for f in used}
+                for r in range(len(Q)):
+                    try:
+                        c = eval_rules(rules, Q[r], lambda nm: col[nm])
+                    except Exception as e:
+                        c = f"error {e}"
+                    if c != pq[r]:
+                        ctx.violation(f"with names of kind {kind} the printed rules give cluster {c} for {Q[r].tolist()}, predict "
+                                      f"gives {pq[r]}", "print", {**desc, "printed": text, "x": Q[r].tolist()},
+                                      key="print:unfaithful:named", how=how)
+                        break
+            ctx.count("pairs:covering-accepted")
+    return exc, text
+
+
 def run(ctx):
     ctx.rule = ("random fitted Kauri trees on dyadic data (depth up to 4, any feature usage), printed with default names and "
                 "with user names (exact count, more names than features); query points random incl. threshold values; "
-                "non-trivial = tree has >= 1 split")
+                "non-trivial = tree has >= 1 split; for every tree ~45 feature_names arguments (None; list/tuple/object array/string array "
+                "of every length around max(used feature), exactly max(used)+0 and +1 in every kind; int entries, adversarial, repeated, "
+                "newline entries; str, number, dict, set, 0-d, 2-d, 3-d, nested, empty arrays): accept/reject and stdout of the real "
+                "function compared with the Lean model printKauriTree")
     c08.regen(ctx)
     ctx.do_prove()
     nf = 80 if ctx.tier == "quick" else 600
     rs = np.random.RandomState(ctx.seed * 11 + 19)
     lines, texts, inputs = [], [], []
+    nlines, npairs = [], []
     how = "print_kauri_tree(Kauri(**params).fit(X, kernel), names) captured from stdout; harness.props.c19.parse_rules/eval_rules"
     for it in range(nf):
         X, kern, params = c09.gen_fit_case(rs, big=True)
@@ -155,6 +281,16 @@ def run(ctx):
             except Exception as e:
                 ctx.violation(f"{len(just)} names cover every used feature (largest index {max(used)}) but print_kauri_tree raised "
                               f"{type(e).__name__}: {e}", "print", {**inp, "names": just}, key="print:just-enough-rejected", how=how)
+        # generated (tree, feature_names) pairs: each judged by the oracle, and the outcome of the real function (raised or
+        # not, what reached stdout) compared below with the Lean model of the whole call, validation included
+        rs2 = np.random.RandomState((ctx.seed * 13 + 1919 + it) % (2 ** 31))
+        pairs, parts = [], []
+        for kind, arg, ndim, ent in name_variants(rs2, used, d):
+            exc, text = judge_names(ctx, model, kind, arg, ndim, ent, used, Q[:len(X) + 4], pq, inp, how)
+            pairs.append(({**inp, "names_kind": kind, "names": repr(arg), "ndim": ndim, "len": len(ent)}, exc, text))
+            parts.append("none" if ndim is None else f"{ndim} {len(ent)} " + " ".join(hx(e) for e in ent))
+        nlines.append(c09.fit_line(X, kern, params, draws).replace("fit ", "printn ", 1) + f" {len(parts)} " + " ".join(parts))
+        npairs.append(pairs)
     # real-valued data (thresholds with many significant digits): read-back oracle only (the exact Lean tie uses
     # dyadic data); the query points include the training samples that define the thresholds
     from gemclus.tree import Kauri
@@ -194,10 +330,23 @@ def run(ctx):
         except Exception:
             ctx.count(f"refused:{what}")
     try:
-        outs = core.run_driver("Kauri", lines)
+        outs = core.run_driver("Kauri", lines + nlines)
     except core.DriverBuildError as e:
         ctx.proof["broken"].append({"theorem": "model build", "reason": str(e)[-400:]})
         outs = []
+    nouts, outs = outs[len(lines):], outs[:len(lines)]
+    for pairs, o in zip(npairs, nouts):
+        answers = o.split(" ; ")
+        if len(answers) != len(pairs):
+            raise core.MachineryError(f"driver Kauri/printn answered {len(answers)} outcomes for {len(pairs)} arguments: {o[:300]}")
+        for (pinp, exc, text), ans in zip(pairs, answers):
+            toks = ans.split()
+            mtext = "".join(bytes.fromhex(tk[1:]).decode("utf-8") + "\n" for tk in toks[1:])
+            ctx.compared("print-names")
+            ctx.count("pairs:" + ("accepted" if toks[0] == "ok" else "rejected:" + toks[0]))
+            if (toks[0] != "ok") != (exc is not None) or mtext != text:
+                ctx.corr_break("print-names", pinp, {"impl": {"raised": None if exc is None else f"{type(exc).__name__}: {exc}", "stdout": text},
+                                                     "model": {"outcome": toks[0], "stdout": mtext}})
     for inp, text, o in zip(inputs, texts, outs):
         ctx.compared("print")
         if text.rstrip("\n") != o.replace("⏎", "\n"):
